@@ -139,6 +139,13 @@ func readHeader(f *os.File) (*header, error) {
 		return nil, fmt.Errorf("internal error: need at least one chunk, found %d", numOffsets-1)
 	}
 
+	if numOffsets > (foundFileSize-chunkTableOffset)/8 {
+		// Don't trust the header enough to allocate a table that is
+		// larger than the file itself (this also avoids overflow below).
+		return nil, fmt.Errorf("chunk table with %d entries does not fit in a file of size %d",
+			numOffsets, foundFileSize)
+	}
+
 	metadataSize := numOffsets*8 + 8 + 1 + 4 + 8
 	if int64(frameSize) != metadataSize {
 		return nil, fmt.Errorf("metadata frame size %d, but metadata size %d",
@@ -165,6 +172,16 @@ func readHeader(f *os.File) (*header, error) {
 		return nil,
 			fmt.Errorf("final offset in chunk table %d should be file size %d",
 				prevOffset, foundFileSize)
+	}
+
+	if h.compression == Zstandard {
+		// The readers locate chunks by dividing offsets by the chunk size.
+		if h.chunkSize == 0 || h.uncompressedSize <= 0 ||
+			(h.uncompressedSize-1)/int64(h.chunkSize)+1 != numOffsets-1 {
+			return nil,
+				fmt.Errorf("chunk size %d and %d chunks are inconsistent with blob size %d",
+					h.chunkSize, numOffsets-1, h.uncompressedSize)
+		}
 	}
 
 	return &h, nil
@@ -256,6 +273,11 @@ func GetUncompressedReadCloser(zstd zstdimpl.ZstdImpl, f *os.File, expectedSize 
 	chunkNum := int64(offset / int64(h.chunkSize))
 	remainder := offset % int64(h.chunkSize)
 
+	if chunkNum >= int64(len(h.chunkOffsets)-1) {
+		_ = f.Close()
+		return nil, fmt.Errorf("offset %d is beyond the last chunk of the blob", offset)
+	}
+
 	if chunkNum > 0 {
 		_, err = f.Seek(h.chunkOffsets[chunkNum], io.SeekStart)
 		if err != nil {
@@ -289,6 +311,10 @@ func GetUncompressedReadCloser(zstd zstdimpl.ZstdImpl, f *os.File, expectedSize 
 	if err != nil {
 		_ = f.Close()
 		return nil, err
+	}
+	if remainder > int64(len(uncompressedFirstChunk)) {
+		_ = f.Close()
+		return nil, fmt.Errorf("offset %d is beyond the decoded chunk", offset)
 	}
 
 	if chunkNum == int64(len(h.chunkOffsets)-2) {
@@ -371,6 +397,11 @@ func GetZstdReadCloser(zstd zstdimpl.ZstdImpl, f *os.File, expectedSize int64, o
 	chunkNum := int64(offset / int64(h.chunkSize))
 	remainder := offset % int64(h.chunkSize)
 
+	if chunkNum >= int64(len(h.chunkOffsets)-1) {
+		_ = f.Close()
+		return nil, fmt.Errorf("offset %d is beyond the last chunk of the blob", offset)
+	}
+
 	if chunkNum > 0 {
 		_, err = f.Seek(h.chunkOffsets[chunkNum], io.SeekStart)
 		if err != nil {
@@ -395,6 +426,10 @@ func GetZstdReadCloser(zstd zstdimpl.ZstdImpl, f *os.File, expectedSize int64, o
 	if err != nil {
 		_ = f.Close()
 		return nil, err
+	}
+	if remainder > int64(len(uncompressedFirstChunk)) {
+		_ = f.Close()
+		return nil, fmt.Errorf("offset %d is beyond the decoded chunk", offset)
 	}
 
 	chunkToRecompress := uncompressedFirstChunk[remainder:]
